@@ -256,8 +256,11 @@ class NdArr:
     def copy(self, name=None):
         if len(self.imap) == self.cell.dims and all(e == ("dim", d, 0, 1) for d, e in enumerate(self.imap)):
             # the whole array: z3 arrays are values, the copy is the same term in a cell of its own
-            return NdArr(self.shape, Cell(self.cell.term, self.cell.dims, self.cell.nan, name or self.cell.name + "_copy"),
-                         list(self.imap), self.kind)
+            c = NdArr(self.shape, Cell(self.cell.term, self.cell.dims, self.cell.nan, name or self.cell.name + "_copy"),
+                      list(self.imap), self.kind)
+            if getattr(self.cell, "sel_of", None) is not None:
+                c.cell.sel_of = self.cell.sel_of          # ghost provenance: a copy of a masked selection is that selection
+            return c
         src = self
         nanfn = (lambda *i: src.isnan(*i)) if self.cell.nan is not None else None
         frozen = NdArr(self.shape, Cell(self.cell.term, self.cell.dims, self.cell.nan), self.imap,
